@@ -78,3 +78,7 @@ func VerifApplyMaxQLen(s *Stream, cid CID) {
 		c.(*consumption).maxQLen = n
 	}
 }
+
+// VerifCloseAs closes the stream with the given status (StreamClosed, StreamReplaced,
+// StreamNoConsumer), as Regist and the idle task do through the unexported close.
+func VerifCloseAs(s *Stream, status int32) error { return s.close(status) }
